@@ -70,3 +70,121 @@ func vh_C04_together() {
 	vC04AtRest(all, "together")
 	vReach("together")
 }
+
+// ---- the full surface language: declarations, builders, macros, range,
+// infix blocks, multiple assignment (standard setup of a sandbox) ----
+//
+// Each program is concrete text with symbolic operands (9001.. are holes:
+// 9001 an arbitrary small integer, 9002 a loop bound in 0..3); it is
+// evaluated form by form in one long-lived interpreter and the four stacks
+// must be at rest after every form that returns a value, on every control
+// path the operands select.  A form that returns an error ends the path
+// (C05's subject).
+var vC04Decls = []string{
+	// struct / instance / field access
+	`(struct Dog [(field Name: string e:0) (field Number: int64 e:1)]) (def d (Dog Name: "rover" Number: 9001)) (+ 0 d.Number) (hset d Number: 3) (:Number d)`,
+	// var, typed assignment
+	`(var a int64) (a = 9001) (+ a 1)`,
+	`(var p (* int64)) (def q 9001) (p = (& q)) (* p)`,
+	`(var s string) (s = "x") (concat s "y")`,
+	// func with and without a body, call with named arguments
+	`(func trundle [a:int64 b:string] [n:int64 err:error] (return (+ a 78) nil)) (trundle a:9001 b:"hi")`,
+	`(func driveIt [a:int64 b:string] [n:int64 err:error])`,
+	`(func pick [a:int64] [n:int64] (cond (< a 5) (return 1) (return 2))) (pick a:9001)`,
+	// method, interface
+	`(struct Kart [(field Id: int64 e:0) (field Name: string e:1)]) (method [(p *Kart)] DriveAway [][s:string] (return "road")) (def c (Kart Id: 9001)) (+ 0 c.Id)`,
+	`(interface Driveable [(func driveIt [a:int64 b:string] [n:int64 err:error])])`,
+	// package: construction, member access, calls into it
+	`(def p (package "pk" (def Open 9001) (def closed 2) (defn Get [] closed) (defn Add [x] (+ x closed)))) (+ 0 p.Open) (p.Get) (p.Add 9001)`,
+	`(def o (package "out" (def In (package "inn" (def V 9001) (defn F [] V))))) (+ 0 o.In.V) (o.In.F)`,
+	`(def p (package "pk" (def N 0) (for [(def i 0) (< i 9002) (set i (+ i 1))] (cond (== i 1) (continue) (set N (+ N i)))))) (+ 0 p.N)`,
+	// macros: definition, expansion at top level, in functions and loops, macexpand
+	`(defmac inc2 [x] ^(+ ~x 2)) (inc2 9001) (macexpand (inc2 3)) (defn f [y] (inc2 y)) (f 9001)`,
+	`(defmac twice [& body] ^(begin ~@body ~@body)) (def n 0) (twice (set n (+ n 9001))) n`,
+	`(defmac unless [c & body] ^(cond ~c nil (begin ~@body))) (def n 0) (for [(def i 0) (< i 9002) (set i (+ i 1))] (unless (== i 1) (set n (+ n i)))) n`,
+	`(defmac swap [a b] ^(let [tmp ~a] (set ~a ~b) (set ~b tmp))) (def x 9001) (def y 2) (swap x y) (- x y)`,
+	// multiple assignment, mdef
+	`(a b c = 9001 2 3) (+ a b c)`,
+	`(a b = 9001 2) (+ a b)`,
+	`(defn f [x y] (+ x y)) (r s t = (f 1 2) (f 3 4) (f 5 9001)) (+ r s t)`,
+	`(defn g [] (a b = 9001 2) (+ a b)) (g) (g)`,
+	`(mdef a b c (list 4 5 9001)) (+ a c)`,
+	`(for [(def i 0) (< i 9002) (set i (+ i 1))] (a b = i 9001))`,
+	// range over hashes and arrays
+	`(def h (hash a:44 b:9001)) (def s 0) (range k v h (set s (+ s v))) s`,
+	`(def arr [1 2 9001]) (def s 0) (range i v arr (cond (== v 2) (continue) (set s (+ s v)))) s`,
+	`(def h (hash a:1 b:2 c:3)) (def s 0) (range k v h (cond (> v 9001) (break) (set s (+ s v)))) s`,
+	// infix blocks: statements, assignment, if/else, go-style for, labels
+	`{ a = 9001; b = a + 2 * 3; b }`,
+	`{ x := 9001; if x > 3 { x = 1 } else { x = 2 }; x }`,
+	`{ x := 9001; if x > 3 { x = 1 }; x }`,
+	`{ s := 0; for i := 0; i < 9002; i++ { s += i }; s }`,
+	`{ s := 0; for i := 0; i < 3; i++ { if i == 9001 { continue }; s += i }; s }`,
+	`{ s := 0; for i := 0; i < 3; i++ { if i == 9001 { break }; s += i }; s }`,
+	`{ s := 0; outer: for i := 0; i < 3; i++ { for j := 0; j < 2; j++ { if j == 9001 { continue outer }; if i == 9002 { break outer }; s += 1 } }; s }`,
+	`{ s := 0; for s < 9002 { s++ }; s }`,
+	`(def arr [1 2 9001]) { arr[1] = 7 } { arr[0:2] } { arr[2] + 1 }`,
+	`(def h (hash a: 1)) (set h.a 9001) { h.a = 5 } (+ 0 h.a)`,
+	`{ a := [1 2 3]; s := 0; for i, v := range a { s += v }; s }`,
+	`{ h := (hash a:1 b:9001); s := 0; for k, v := range h { s += v }; s }`,
+	`(defn f [x] { y := x * 2; if y > 4 { (return y) }; y + 1 }) (f 9001)`,
+	`{ a, b = 9001, 2 } (+ a b)`,
+	// eval-style builtins and nested evaluations
+	`(eval (quote (+ 1 9001))) (eval (quote (def z 9001))) z`,
+	`(apply + [1 9001]) (map (fn [x] (+ x 1)) [1 9001])`,
+	`(expectError "Error calling 'first': first called on empty array" (first [])) 9001`,
+	// closures stored in data, called after the creator returned
+	`(defn mk [n] (fn [] (set n (+ n 1)) n)) (def c (mk 9001)) (c) (c)`,
+	// strings, hashes, arrays as values of statements
+	`(def h (hash)) (hset h k: 9001) (hget h k:) (hdel h k:) (len h)`,
+	`[1 2 9001]`,
+	`(quote (a b 9001))`,
+	`"just a string"`,
+}
+
+func vh_C04_decls() {
+	vFormatOpaque(true)
+	env := vStdEnvs(1)[0]
+	k := vChoice("program", len(vC04Decls))
+	h1 := vSmallInt("h1")
+	n := vInt64("n")
+	vAssume(n >= 0 && n <= 3)
+	forms := vT(env, vC04Decls[k], h1, &SexpInt{Val: n})
+	vC04AtRest(env, "decls-before")
+	for _, f := range forms {
+		_, err, panicked := vEval(env, f)
+		if panicked || err != nil {
+			vDone()
+		}
+		vC04AtRest(env, "decls")
+	}
+	res, err, panicked := vEvalString(env, "")
+	vAssert(!panicked && err == nil && res == SexpNull, "decls-empty-input-is-nil")
+	vC04AtRest(env, "decls-after-empty")
+	vReach("decls")
+	vReachIdx("decls", k, len(vC04Decls))
+}
+
+// vh_C04_idle: an idle interpreter does not grow with the number of
+// evaluations it has served: the same declaration or statement evaluated
+// r <= 3 times leaves the stacks where one evaluation leaves them.
+func vh_C04_idle() {
+	vFormatOpaque(true)
+	env := vStdEnvs(1)[0]
+	k := vChoice("program", len(vC04Decls))
+	h1 := vSmallInt("h1")
+	n := vInt64("n")
+	vAssume(n >= 0 && n <= 3)
+	forms := vT(env, vC04Decls[k], h1, &SexpInt{Val: n})
+	for round := 0; round < 3; round++ {
+		for _, f := range forms {
+			_, err, panicked := vEval(env, f)
+			if panicked || err != nil {
+				vDone()
+			}
+		}
+		vC04AtRest(env, "idle")
+	}
+	vReach("idle")
+	vReachIdx("idle", k, len(vC04Decls))
+}
